@@ -958,6 +958,8 @@ class ParseLabel(Contract):
         st = types.SimpleNamespace(yielded=[])
         st.tab = T18.Table(I, 8, 'GVF_file')
         st.args = [st.tab.file]
+        if T18.first_loop_kind(I, self.path, self.qualname) != 'for':
+            raise Unsupported('the reader is not written as `for line in handle` (this contract follows that form)')
         self._cur = st
         return st
 
